@@ -200,6 +200,13 @@ func render(c any, ctx *Ctx) json.RawMessage {
 // returns the error (nil when the property held for the case).
 func (r *Rec) Do(c any, exec func(*Ctx) error) (err error) {
 	ctx := &Ctx{r: r}
+	if dir := os.Getenv("VERIF_INFLIGHT"); dir != "" {
+		// debugging aid for inputs that kill the process (Go fatal errors cannot be recovered):
+		// the case about to run is left behind as a replay file.
+		if b, jerr := json.Marshal(c); jerr == nil {
+			_ = os.WriteFile(filepath.Join(dir, fmt.Sprintf("inflight-%s-%s.json", r.Name, os.Getenv("VERIF_SHARD"))), b, 0o644)
+		}
+	}
 	func() {
 		defer func() {
 			if p := recover(); p != nil {
